@@ -112,7 +112,7 @@ func runTreeHistory(r *mon.Run, stream uint64, regime string, size int) {
 		return
 	}
 	a := chainlab.NewAuditor(t, node)
-	a.Deep = true
+	a.Deep = size <= 60
 	for _, batch := range t.RandomSchedule(rng) {
 		_, fs := a.Submit(batch)
 		if a.Tip.Height <= env.Net.HardforkV2.RequireHeight {
@@ -321,13 +321,13 @@ func runC01(r *mon.Run, replay string) {
 	r.Rule("random fork trees per regime (mix / v1only / v2only) with single-field corruptions, submitted in PRNG schedules (split, reversed, duplicated, orphan-first, branch-mixing batches); plus the enumerated class 'invalid block at depth d of a heavier fork of length L forking k below the tip' for all d<=L<=6,k<=6 per regime, resubmission with two more blocks, and pre-validated v2 batches; every call is audited (tip, state bytes vs pure consensus replay, index, blocks, states, element buckets and served proofs, unchanged view on failure); distinct = (scenario shape, regime, stream, reorgs, rollbacks)")
 	r.Assume("go.sia.tech/core/consensus is the oracle for block validity and state")
 	r.Assume("blocks with timestamps > now+3h are refused as future blocks (not a consensus rule); generated ones are either hours in the past or > now+4h")
-	nTrees := r.Pick(600, 12000)
+	nTrees := r.Pick(600, 5000)
 	size := 30
 	parallel(nTrees, func(i int) {
 		regime := regimes[i%3]
 		sz := size
-		if r.Thorough() && i%20 == 0 {
-			sz = 200 + (i%7)*30
+		if r.Thorough() && i%125 == 0 {
+			sz = 200 + (i%7)*30 // a few big trees (audited without the full per-call view)
 		}
 		runTreeHistory(r, uint64(1000+i), regime, sz)
 	})
